@@ -395,7 +395,7 @@ class Gen:
         if not cands:
             return lit(r.randint(0, 6))
         name, npar, nreq, rec, isrec, _void = r.choice(cands)
-        nargs = r.randint(nreq, npar)
+        nargs = r.randint(nreq, npar) + (1 if r.random() < 0.12 else 0)      # sometimes one argument too many
         args = [self.int_expr(sc, d + 2) for _ in range(nargs)]
         if rec:
             # recursive call from inside the function: first argument strictly decreases
@@ -485,7 +485,7 @@ class Gen:
     def call_closure(self, sc, d):
         r = self.rng
         name, npar, nreq = r.choice(sc["clos"])
-        return ["callv", var(name), [self.int_expr(sc, d + 2) for _ in range(r.randint(nreq, npar))]]
+        return ["callv", var(name), [self.int_expr(sc, d + 2) for _ in range(r.randint(nreq, npar) + (1 if r.random() < 0.12 else 0))]]
 
     def match_expr(self, sc, d=0):
         """match (int) { ints => int, ... [default => int] }; without default only when an arm is sure to hit
@@ -1055,6 +1055,33 @@ def index_programs():
     return out
 
 
+def callarg_programs():
+    """argument lists longer and shorter than the parameter list: every argument expression is evaluated, left to
+    right, also the surplus ones (a tracing callee shows it); a required parameter without argument is an error
+    raised after the arguments were evaluated and before the body runs"""
+    out = []
+    tr = {"name": "tr", "params": [["n", None]], "body": [tag("<", var("n")), ["return", var("n")]]}
+    one = {"name": "one", "params": [["a", None]], "body": [tag("[one ", var("a")), ["return", var("a")]]}
+    two = {"name": "two", "params": [["a", None], ["b", [5]]], "body": [tag("[two ", ["bin", "Add", var("a"), var("b")]), ["return", var("b")]]}
+    req = {"name": "req", "params": [["a", None], ["b", None]], "body": [echo_("never"), ["return", lit(0)]]}
+    clo = [{"params": [["p", None]], "uses": [], "body": [["return", ["bin", "Mul", var("p"), lit(2)]]], "arrow": True},
+           {"params": [["p", None], ["q", None]], "uses": [], "body": [["return", var("q")]], "arrow": False}]
+    t = lambda k: ["call", "tr", [lit(k)]]
+    base = {"funcs": [tr, one, two, req], "closures": clo}
+    out.append(dict(base, main=[tag(" r=", ["call", "one", [t(1), t(2)]]), tag(" r=", ["call", "one", [lit(7), t(3), t(4)]]),
+                                tag(" r=", ["call", "two", [t(5)]]), tag(" r=", ["call", "two", [t(6), t(7), t(8)]]),
+                                ["expr", ["assign", "c", ["closure", 0]]], tag(" c=", ["callv", var("c"), [t(9), t(10)]])]))
+    out.append(dict(base, main=[echo_("a;"), tag(" r=", ["call", "req", [t(1)]]), echo_("never")]))
+    out.append(dict(base, main=[["expr", ["assign", "d", ["closure", 1]]], echo_("a;"), tag(" r=", ["callv", var("d"), [t(2)]]), echo_("never")]))
+    out.append(dict(base, main=[["for", [["assign", "i", lit(0)]], ["bin", "Lt", var("i"), lit(2)], [["postinc", "i"]],
+                                 [tag(" r=", ["call", "one", [var("i"), ["call", "one", [t(4), t(5)]]]])]]]))
+    return out
+
+
+def echo_(s):
+    return ["echo", lit(s)]
+
+
 def dirty_programs(rng, n):
     """programs of the recorded defect classes (kept small and otherwise plain, so that the key names the class)"""
     out = []
@@ -1222,6 +1249,8 @@ class Probe:
                     nf["vars"][x] = vs[i]
                 elif d is not None:
                     nf["vars"][x] = d[0]
+                else:
+                    raise _Thr(("err", "too few arguments"))
             try:
                 self.block(f["body"], nf)
             except _Ret as r:
@@ -1259,6 +1288,8 @@ class Probe:
                     nf["vars"][x] = vs[i]
                 elif d is not None:
                     nf["vars"][x] = d[0]
+                else:
+                    raise _Thr(("err", "too few arguments"))
             nf["vars"].update(f[3])
             try:
                 self.block(c["body"], nf)
@@ -1552,6 +1583,8 @@ def main(ck):
             cases.append((pr, True, None, "match"))
         for pr in closure_programs():
             cases.append((pr, True, None, "closure"))
+        for pr in callarg_programs():
+            cases.append((pr, True, None, "callargs"))
         for pr in static_branch_programs():
             cases.append((pr, True, None, "staticbranch"))
         for pr in index_programs():
@@ -1647,7 +1680,7 @@ def main(ck):
     ck.cov["construct_occurrences"] = dist
     ck.cov["program_size_median"] = sizes[len(sizes) // 2] if sizes else 0
     ck.cov["program_size_max"] = sizes[-1] if sizes else 0
-    ck.cov["families"] = {f: sum(1 for c in cases if c[3] == f) for f in ("nest2", "alias", "escape", "recursion", "paramalias", "match", "closure", "staticbranch", "index", "random", "dirty", "replay")}
+    ck.cov["families"] = {f: sum(1 for c in cases if c[3] == f) for f in ("nest2", "alias", "escape", "recursion", "paramalias", "match", "closure", "callargs", "staticbranch", "index", "random", "dirty", "replay")}
     ck.cov["impl_outcomes"] = outcome_hist
     ck.samples = [srcs[len(srcs) // 2], srcs[-1]] if srcs else []
     ck.finish(level="proof", evaluations=len(cases), distinct_nontrivial=nontriv,
